@@ -185,7 +185,7 @@ func (c *Chain) Observe() *Observation {
 		svcList = append(svcList, s)
 	}
 	sort.Strings(svcList)
-	provs := []string{"p1", "p2", "p3", "w1"}
+	provs := []string{"p1", "p2", "p3", "pz", "w1"}
 	owners := []string{"", "o1", "o2", "c1"}
 
 	for _, s := range svcList {
